@@ -349,6 +349,8 @@ def _run_family(family, opts):
         except FamilyTimeout:
             raise
         except Exception as e:
+            if isinstance(e, MemoryError) or "out of memory" in str(e).lower() or "bad_alloc" in str(e).lower():
+                raise  # the worker's memory cap, not the code under analysis
             # the real code raised while executing symbolically: confirm concretely
             res["reason"] = f"raised during symbolic execution: {type(e).__name__}: {str(e)[:300]}"
             res["trace"] = traceback.format_exc()[-1500:]
@@ -477,6 +479,9 @@ def _run_family(family, opts):
             # the alarm fired inside a native callback
             res["status"] = "inconclusive"
             res["reason"] = f"family exceeded {hard_s}s"
+        elif isinstance(e, MemoryError) or "out of memory" in str(e).lower() or "bad_alloc" in str(e).lower():
+            res["status"] = "inconclusive"
+            res["reason"] = "family exceeded the memory cap of a worker"
         else:
             res["status"] = "error"
             res["reason"] = f"harness error: {type(e).__name__}: {str(e)[:300]}"
@@ -506,6 +511,15 @@ def _work(i):
 
 
 def _worker_loop(task_q, result_q):
+    # a family whose query makes the solver allocate without bound must not take the machine down (one nlsat query was
+    # seen at 31 GB): the address space of a worker is capped; hitting the cap ends that family as inconclusive
+    try:
+        import resource
+
+        cap = int(float(os.environ.get("VERIF_WORKER_GB", "10")) * (1 << 30))
+        resource.setrlimit(resource.RLIMIT_AS, (cap, cap))
+    except Exception:
+        pass
     while True:
         i = task_q.get()
         if i is None:
